@@ -219,6 +219,16 @@ def run(spec):
             break
         if not compare(res, ix, p, shadow, kind, opi):
             break
+        # the cost logs of step k at the six levels describe the same step
+        for i in range(len(p.cost_list)):
+            tsum = sum(w.cost_list[i] for w in ix.workers) + sum(f.cost_list[i] for f in ix.facs)
+            gsum = sum(g.cost_list[i] for g in ix.teams) + sum(g.cost_list[i] for g in ix.wps)
+            vals = (p.cost_list[i], p.organization.cost_list[i], gsum, tsum)
+            if max(vals) - min(vals) > 1e-9 * max(1.0, abs(max(vals))):
+                res.add("entry", "C08.entry.cost_levels_disagree.after_%s" % kind,
+                        "after op %d (%s): at log index %d project cost %r, organization %r, teams+workplaces %r, workers+facilities %r"
+                        % (opi, kind, i, vals[0], vals[1], vals[2], vals[3]), i)
+                break
         if res.violations:
             break
     res.nontrivial = productive >= 2
